@@ -234,7 +234,11 @@ def compare(expected, observed, feat, table, base=None):
     # ---- summary
     if table.compare_summary:
         e, o = expected.get("doc") or "", observed.get("doc") or ""
-        if table.summary_wrap:
+        within = getattr(table, "summary_exact_within", None)
+        if table.summary_wrap and within and all(len(line) <= within for line in e.splitlines()):
+            # nothing needed wrapping: the line breaks stay where they were (indentation of the lines is layout)
+            same = [ws(line) for line in e.strip().splitlines()] == [ws(line) for line in o.strip().splitlines()]
+        elif table.summary_wrap:
             same = ws(e) == ws(o)
         else:
             same = e.strip() == o.strip()
